@@ -93,23 +93,32 @@ def run(R):
             t = f.blocks[sw]["term"]
             if t["k"] == "switch" and t["discr"]["k"] in ("copy", "move") and t["discr"]["pl"]["l"] == l and not t["discr"]["pl"]["p"]:
                 fl_sw.append(sw)
-    if len(fl_sw) != 1:
-        R.violation("C17.header", "print|first_line-tests", "first_line is tested %d times in print (expected once, for the CSV header)" % len(fl_sw),
-                    [f.loc()])
+    fl_sw = sorted(set(fl_sw))
+    if not fl_sw:
+        R.violation("C17.header", "print|first_line-tests", "first_line is never tested in print: no format prints its header line", [f.loc()])
         return
-    sw = fl_sw[0]
-    true_t = f.blocks[sw]["term"]["otherwise"]
-    # paths that avoid the header edge: exactly one println
-    r1 = count_range(f, g[1], {header}, inloop, avoid_edges={(sw, true_t)})
-    # paths through the header edge: from true_t to header + from Some-edge to sw
-    r_pre = count_range(f, g[1], {sw}, inloop)
-    r_post = count_range(f, true_t, {header}, inloop)
-    if r1 == (1, 1) and r_pre == (0, 0) and r_post == (2, 2):
-        R.ok("C17.once", "print|per-row", "1 record per row on every path; CSV first line: header + record", f.loc(header))
+    # every test of first_line sits in the arm of one format (CSV on the pinned tree; a further tabular format added later has its
+    # own): on its true edge a header and the record are printed (0 + 2), on all other paths exactly one record
+    true_edges = {}
+    for sw in fl_sw:
+        true_edges[sw] = f.blocks[sw]["term"]["otherwise"]
+    r1 = count_range(f, g[1], {header}, inloop, avoid_edges=set(true_edges.items()))
+    bad_hdr = []
+    for sw, true_t in sorted(true_edges.items()):
+        r_pre = count_range(f, g[1], {sw}, inloop)
+        r_post = count_range(f, true_t, {header}, inloop)
+        if not (r_pre == (0, 0) and r_post == (2, 2)):
+            bad_hdr.append((sw, r_pre, r_post))
+    if r1 == (1, 1) and not bad_hdr:
+        R.ok("C17.once", "print|per-row", "1 record per row on every path; first line of a tabular format: header + record (%d header test%s)"
+             % (len(fl_sw), "" if len(fl_sw) == 1 else "s"), f.loc(header))
     else:
+        sw, r_pre, r_post = bad_hdr[0] if bad_hdr else (fl_sw[0], (0, 0), (2, 2))
         R.violation("C17.once", "print|per-row",
-                    "println count per result row is %s on the normal paths (must be exactly 1) and %s+%s on the CSV first-line path (must be 0+2): "
+                    "println count per result row is %s on the normal paths (must be exactly 1) and %s+%s on the first-line path (must be 0+2): "
                     "a record is dropped or duplicated on some path" % (r1, r_pre, r_post), [f.loc(header)])
+    sw = fl_sw[0]
+    true_t = true_edges[sw]
     # the `lone input column prints just the line` case: the println that prints a single value needs all three guards
     R.rule("C17.lone-input", "only a result whose single column is named `input`, in text format, is printed as the bare line")
     # the println that prints a bare value (no `name: ` prefix, no join): its argument is formatted from a single column value
